@@ -204,6 +204,14 @@ func (c *Camera) handle(conn net.Conn, rec *CameraConn, plan CameraPlan, hold ch
 			c.set(rec, func(r *CameraConn) { r.AuthOK = append(r.AuthOK, authOK) })
 		}
 		key := fmt.Sprint(step)
+		if kind == "digest-silence" { // a challenge first; the request that carries the right credentials is never answered
+			if authOK {
+				kind = "silence"
+			} else {
+				reply(401, "Unauthorized", map[string]string{"WWW-Authenticate": `Digest realm="cam", nonce="` + fmt.Sprintf("c0ffee%02d23456789", step) + `"`}, "")
+				continue
+			}
+		}
 		switch kind {
 		case "basic", "digest":
 			if !authOK {
